@@ -49,3 +49,4 @@ package netutil
 //@ modifies nothing
 //@ at call strings.IndexFunc assert [an-omitted-method-is-checked-as-get] arg(a0) == ite(method0 == "", "GET", method0)
 //@ ensures [only-tokens] imp(result, result_of(strings.IndexFunc, 0) == -1)
+//@ ensures [the-token-check-runs-for-an-omitted-method-too] imp(method == "", calls(strings.IndexFunc) == 1 && result == (result_of(strings.IndexFunc, 0) == -1))
